@@ -80,7 +80,7 @@ def chain_case(draw):
 
 
 def _general():
-    g = G.graph_strategy(G.OPTIN_NAMES * 2 + ['P0', 'P1'], std=False, max_nodes=8)
+    g = G.graph_strategy(G.OPTIN_NAMES * 2 + ['P0', 'P1', 'PM0'], std=False, max_nodes=8)
     p = st.dictionaries(st.sampled_from(_names + ['fresh']), st.one_of(_val, st.dictionaries(st.sampled_from(_names), _val, max_size=2)), max_size=3)
     return st.builds(lambda gg, pp: dict(gg, patches=pp, grammar='general'), g, p)
 
